@@ -759,6 +759,7 @@ func (p *provProfile) onEvent(re RecEvent) {
 	if p.d != nil {
 		if kind, name := nominatedTarget(re.Ev.Message); kind == "node" {
 			p.d.nomEvents[name] = p.s.step
+			p.d.nomTimes[name] = append(p.d.nomTimes[name], p.s.Now())
 		}
 	}
 	if re.Task == nil {
